@@ -56,7 +56,7 @@ def _dispatch(model: Model):
 class _LegModel:
     ARRS = ("X", "W")
 
-    def __init__(self, fi: FuncInfo):
+    def __init__(self, fi: FuncInfo, n_value: Optional[int] = None, n_name: Optional[str] = None):
         self.fi = fi
         P = fi.params()
         if len(P) < 4:
@@ -64,12 +64,14 @@ class _LegModel:
         self.p_fcn, self.p_xl, self.p_xu, self.p_params = P[:4]
         self.np_arg = None
         self.calls = []
-        fr = self.fr = Frag(fi.module.source, on_call=self._call, on_attr=self._attr, on_subscript=self._sub)
+        fr = self.fr = Frag(fi.module.source, on_call=self._call, on_attr=self._attr, on_subscript=self._sub, specialise=n_value is not None)
         fr.env[self.p_xl] = S("xl")
         fr.env[self.p_xu] = S("xu")
         fr.env[self.p_params] = Opaque("params")
         for k in P[4:] + fi.kwonly():
             fr.env[k] = S(k)
+        if n_value is not None:
+            fr.env[n_name] = C(n_value)
         r = fr.run(fi.node.body)
         self.ret = r[1] if r else None
 
@@ -129,11 +131,68 @@ class _LegModel:
         return None
 
 
-def _affine_and_sum(model: Model, A: RuleResult, I: RuleResult, impl: FuncInfo):
+def _specialised(model: Model, A: RuleResult, I: RuleResult, impl: FuncInfo, why: str, tier: str):
+    """Fallback when the accumulation is not a single counted loop: partial evaluation of the *index arithmetic* for concrete
+    n (constant folding of n // 2, n % 2, n > 1, unrolling of loops with constant bounds).  Nothing is executed; the integrand,
+    nodes and weights stay uninterpreted atoms.  A failing n is a violation; success is a bounded claim (n <= N)."""
+    probe = _LegModelProbe(impl)
+    nname = probe
+    N = 12 if tier == "quick" else 40
+    half = (S("xu") - S("xl")) / C(2)
+    mid = (S("xu") + S("xl")) / C(2)
+    okn = []
+    for n in range(1, N + 1):
+        try:
+            lm = _LegModel(impl, n_value=n, n_name=nname)
+        except Uninterpretable as e:
+            raise AnalysisError("C12-A/I cannot interpret %s symbolically (%s) nor specialised at n=%d (%s)" % (impl.fq, why, n, e))
+        fr = lm.fr
+        if lm.np_arg is None or not lm.np_arg.eq(C(n)):
+            A.bad(impl, impl.node, "the n handed to numpy's leggauss is %r when the caller asks for n=%d" % (lm.np_arg, n))
+            return
+        exp = C(0)
+        for i in range(n):
+            exp = exp + fr.atom("W", (C(i),)) * half * fr.atom("F", (fr.atom("X", (C(i),)) * half + mid,))
+        if not (isinstance(lm.ret, Rat) and lm.ret.eq(exp)):
+            # diagnose: which indices are evaluated
+            seen = sorted(repr(fr.atoms[a][1][0]) for a in fr._deep_symbols(fr, lm.ret) if a in fr.atoms and fr.atoms[a][0] == "X") if isinstance(lm.ret, Rat) else []
+            I.bad(impl, impl.node, "for n=%d the result is not sum_{i<n} W[i]*(xu-xl)/2 * f(X[i]*(xu-xl)/2 + (xu+xl)/2): nodes evaluated %s of 0..%d "
+                  "(index arithmetic specialised at this n; integrand uninterpreted)" % (n, seen, n - 1), what="n=%d" % n)
+            return
+        badp = [c for (c, syms, x, rest) in lm.calls if rest != ["*" + lm.p_params]]
+        if badp:
+            I.bad(impl, enclosing_stmt(badp[0]), "the integrand is not called with the extra parameters *%s" % lm.p_params)
+            return
+        okn.append(n)
+    A.ok(impl.fq, "nodes X[i]*(xu-xl)/2 + (xu+xl)/2 and weights W[i]*(xu-xl)/2 for every n in 1..%d (specialised)" % N)
+    A.ok(impl.fq, "numpy is asked for exactly n nodes for every n in 1..%d" % N)
+    A.ok(impl.fq, "bounded claim only: the accumulation is not a single counted loop (%s)" % why)
+    I.ok(impl.fq, "every index 0..n-1 exactly once with matching weight, for every n in 1..%d (index arithmetic specialised, not executed)" % N)
+    I.ok(impl.fq, "weight and node carry the same index in every term, n in 1..%d" % N)
+    I.ok(impl.fq, "parameters forwarded at every evaluation, n in 1..%d" % N)
+    I.note("C12-I decided by specialisation for n <= %d only: %s" % (N, why))
+
+
+def _LegModelProbe(impl: FuncInfo) -> str:
+    """name of the option that is handed to numpy's leggauss"""
+    for c in ast.walk(impl.node):
+        if isinstance(c, ast.Call) and ast.unparse(c.func).endswith("leggauss") and c.args:
+            names = [n.id for n in ast.walk(c.args[0]) if isinstance(n, ast.Name)]
+            cands = [n for n in names if n in impl.params()[4:] + impl.kwonly()]
+            if cands:
+                return cands[0]
+    return "n"
+
+
+def _affine_and_sum(model: Model, A: RuleResult, I: RuleResult, impl: FuncInfo, tier: str = "quick"):
     try:
         lm = _LegModel(impl)
+        if not isinstance(lm.ret, Rat):
+            raise Uninterpretable("the returned value is not a single arithmetic accumulation (conditional or restructured)")
+        if len([s for s in lm.ret.symbols() if s in lm.fr.sums]) != 1:
+            raise Uninterpretable("the accumulation is not a single counted loop")
     except Uninterpretable as e:
-        raise AnalysisError("C12-A/I cannot interpret %s: %s" % (impl.fq, e))
+        return _specialised(model, A, I, impl, str(e), tier)
     fr, fi = lm.fr, lm.fi
     if lm.np_arg is None:
         raise AnalysisError("C12-A: no call of numpy's leggauss found in %s" % fi.fq)
@@ -430,11 +489,15 @@ def _substitution(model: Model, Sr: RuleResult, N: RuleResult, fwd: FuncInfo, ca
         ok = False
         if s is not None and ast.unparse(s.value.func) in ("torch.as_tensor", "torch.tensor") and s.value.args and ast.unparse(s.value.args[0]) == who:
             kw = {k.arg: ast.unparse(k.value) for k in s.value.keywords}
-            ok = kw.get("dtype") == P[7] and kw.get("device") == P[8] and s.lineno < br.lineno and any(a is s for a in ast.walk(fwd.node))
+            from ..cfg import CFG, stmt_dominates
+            cfg = CFG(fwd.node)
+            dom = cfg.dominators(skip_exc=True)
+            ok = kw.get("dtype") == P[7] and kw.get("device") == P[8] and stmt_dominates(cfg, dom, s, br) and stmt_dominates(cfg, dom, s, enclosing_stmt(ic))
         if ok:
             N.ok(fwd.fq, "`%s` before the infinite test and the rule" % norm_stmt(s))
         else:
-            N.bad(fwd, s or fwd.node, "limit %s must be converted with torch.as_tensor(%s, dtype=dtype, device=device) before it is used" % (who, who))
+            N.bad(fwd, s or fwd.node, "limit %s must be converted with torch.as_tensor(%s, dtype=dtype, device=device) on every path before it is used "
+                  "(numbers and tensors of any dtype take the same path)" % (who, who))
     # the wrapper passes the integrand's dtype/device
     q = model.func(QUAD, "quad")
     qdefs = function_defs(q.node)
@@ -526,7 +589,7 @@ def rules(model: Model, tier: str) -> List[RuleResult]:
         M.ok(fwd.fq, "the rule is called with **<forward options>, so the caller's n reaches leggauss(n=...)")
     else:
         M.bad(fwd, fwd.node, "the caller's options (n) must be splatted into the rule")
-    _affine_and_sum(model, A, I, impl)
+    _affine_and_sum(model, A, I, impl, tier)
     _substitution(model, Sr, N, fwd, callsite)
     _tuple_out(model, P)
     return [A, I, Sr, N, P, M]
